@@ -28,6 +28,9 @@ func coinAccessorCall(v ssa.Value, name string) (ssa.Value, bool) {
 }
 
 func checkC19(p *Program, r *Report) {
+	// round 6 (systematic): no unguarded mutable package-level state behind this property's functions (§2.9)
+	sharedStateRule(p, r, NewEffects(p), "C19.shared", []string{"coinset/coins.go"})
+	r.Floor("C19.shared", 0)
 	r.Explain = "C19.pair: every mutation of a coin set's underlying list happens in a function that, in the same straight-line region, adds (for an insertion) or " +
 		"subtracts (for a removal) that same coin's Value() and ValueAge() to both running totals exactly once, and no other function stores to the totals " +
 		"(apart from zero initialisation of a fresh set) — so the totals cannot drift under any sequence of pushes, pops and shifts. C19.order: a transaction " +
